@@ -22,7 +22,7 @@ def genC16AllCases (tier : String) (seed : Nat) : Array Case := Id.run do
     let (s, r1) := genC16Stmt (i % 2 = 0) rng
     rng := r1
     let kf := kfC16 s
-    let text := String.ofList (renderS s)
+    let text := withSecondarySuffix (String.ofList (renderS s)) i
     let root := denoteLinked s
     for (ext, sfx) in [(true, "x"), (false, "c")] do
       let o : Tab.Opts := { ext := ext, ann := i % 2 = 1, gs := i % 4 = 0 }
